@@ -188,7 +188,7 @@ theorem vdLoop_entry (fuel : Nat) (ty : UInt8) (k v rest : Bytes) (d : VarDict) 
       · simp [hl] at hval
       · simp only [hl, ↓reduceIte] at hval
         injection hval with hval; subst hval
-        simp [bind, Outcome.bind, readU64, hl]
+        simp [bind, Outcome.bind, readU64E, hl]
     · simp only [t2, ↓reduceIte] at hval
       by_cases t3 : ty = 0x04
       · subst t3
@@ -196,7 +196,7 @@ theorem vdLoop_entry (fuel : Nat) (ty : UInt8) (k v rest : Bytes) (d : VarDict) 
         · simp [hl] at hval
         · simp only [hl, ↓reduceIte] at hval
           injection hval with hval; subst hval
-          simp [bind, Outcome.bind, readU32, hl]
+          simp [bind, Outcome.bind, readU32E, hl]
       · simp [t3] at hval
 
 /-- inserting a list of decoded entries, in order -/
@@ -453,7 +453,7 @@ theorem outerField_of (c : Config) (t : Tape) (l : Layout) (H : HeaderOk c t l) 
     refine ⟨3, toLe32 (if c.compression then 1 else 0), rfl, by simp, ?_⟩
     have e0 : le32 (toLe32 0) = 0 := by decide
     have e1 : le32 (toLe32 1) = 1 := by decide
-    cases hc : c.compression <;> simp [outerField, applyOField, readU32, bind, Outcome.bind, hc, e0, e1]
+    cases hc : c.compression <;> simp [outerField, applyOField, readU32E, bind, Outcome.bind, hc, e0, e1]
   | masterSeed => exact ⟨4, t.masterSeed, rfl, H.seed, by simp [outerField, applyOField]⟩
   | iv => exact ⟨7, t.iv, rfl, H.iv, by simp [outerField, applyOField]⟩
   | kdf =>
@@ -599,7 +599,7 @@ theorem innerOfId_innerId (c : InnerCipher) : innerOfId (innerId c) = some c := 
 theorem innerField_id (acc : InnerAcc) (c : InnerCipher) :
     innerField acc 1 (toLe32 (innerId c)) = .ok (some { acc with cipher := some c }) := by
   have : le32 (toLe32 (innerId c)) = innerId c := le32_toLe32' _ (by cases c <;> decide)
-  simp [innerField, readU32, bind, Outcome.bind, this, innerOfId_innerId]
+  simp [innerField, readU32E, bind, Outcome.bind, this, innerOfId_innerId]
 
 theorem innerLoop_header (c : Config) (t : Tape) (atts : List (UInt8 × Bytes)) (first : Bool) (xml : Bytes)
     (hk : t.innerKey.length < 4294967296) (ha : attOk atts) :
